@@ -270,6 +270,7 @@ type World struct {
 	carrs     map[string]Term
 	pendingPrefix [][3]Term
 	pendingPerm   [][3]Term
+	pendingSum    [][3]Term
 	ModPath   string
 	seqSorts  []Sort
 	Facts     []string
